@@ -19,12 +19,12 @@ pub static DEF: PropDef = PropDef {
   rule: "decode_cbor(bytes) compared with an independent RFC 8949 decoder on: every byte string of length 0..=2 (exhaustive), every initial byte x boundary arguments x payload variants (3..=10 bytes), generated data items in random encodings (definite/indefinite, widened heads, chunked strings, all float widths), every proper prefix of each, and byte-level mutants. A case is non-trivial when the input is longer than one byte; distinct = distinct input byte strings (hashed).",
   assumptions: &[
     "RFC 8949 well-formedness rules transcribed by hand into dv::model_decode",
-    "an indefinite text string whose chunks split a UTF-8 sequence is left undecided (validity, not well-formedness)",
+    "an indefinite text string one of whose chunks ends inside a UTF-8 character must be refused: each chunk is a text string of its own (RFC 8949 3.2.3) and the property requires valid UTF-8 of text strings",
     "NaN payloads are not compared (any NaN equals any NaN)",
     "nesting beyond 2000 levels is not judged",
   ],
   required,
-  post: None,
+  post: Some(post),
   shards: default_shards,
 };
 
@@ -158,7 +158,11 @@ pub fn check(ctx: &mut Ctx, bytes: &[u8], origin: &str) {
       ctx.report(&sig, witness(exp, p));
     }
     Ok(Ok(v)) => match m {
-      Ok(d) if d.split_utf8 => ctx.count("unspecified_split_utf8"),
+      Ok(d) if d.split_utf8 => {
+        // every chunk is itself a text string (RFC 8949 3.2.3), and the property demands valid
+        // UTF-8 of every text string: a chunk that ends inside a character must be refused
+        ctx.report("accepts-ill-formed:chunk-splits-utf8-character", witness("Err (a chunk is not valid UTF-8 on its own)".into(), conv(&v).diag()));
+      }
       Ok(d) => {
         let iv = conv(&v);
         let mut ds = vec![];
@@ -181,7 +185,11 @@ pub fn check(ctx: &mut Ctx, bytes: &[u8], origin: &str) {
       }
     },
     Ok(Err(e)) => match m {
-      Ok(d) if d.split_utf8 => ctx.count("unspecified_split_utf8"),
+      Ok(d) if d.split_utf8 => {
+        let _ = d;
+        ctx.count("agree_err");
+        ctx.count("split_utf8_chunk_rejected");
+      }
       Ok(d) => {
         ctx.report(
           &format!("rejects-well-formed:{}", top_class(&d.v)),
@@ -390,4 +398,31 @@ fn run(ctx: &mut Ctx, idx: u64) {
     check(ctx, &m, "mutant");
     ctx.count("mutant_inputs");
   }
+  // indefinite-length text strings whose chunk boundary falls inside / between characters
+  for _ in 0..2 {
+    let words = ["é", "aé", "😀", "x😀y", "ü€", "日本"];
+    let t = rng.pick_str(&words).to_string() + rng.pick_str(&words);
+    let b = t.as_bytes();
+    let cut = 1 + rng.usize(b.len() - 1);
+    let mut e = vec![0x7f];
+    for part in [&b[..cut], &b[cut..]] {
+      e.push(0x60 | part.len() as u8);
+      e.extend_from_slice(part);
+    }
+    e.push(0xff);
+    // possibly nested
+    if rng.chance(1, 3) {
+      let mut w = vec![0x81];
+      w.extend(e);
+      e = w;
+    }
+    check(ctx, &e, "chunked-text");
+    ctx.count("chunked_text_inputs");
+  }
+}
+
+/// thorough tier: the first 20000 cases again under AddressSanitizer, and 8 x 10 cases (spread over the case space) under Miri (see san.rs)
+fn post(sum: &mut Summary, tier: Tier, seed: u64) {
+  crate::san::asan_phase(&DEF, sum, tier, seed, 20_000);
+  crate::san::miri_phase(&DEF, sum, tier, seed, 8, 10);
 }
